@@ -182,6 +182,12 @@ def run(res, proof):
     for _ in range(30 if quick else 600):
         S = sysgen.gen_system(rng)
         jobs.append({'text': sysgen.render(S, rng), 'mode': 'outcome', 'reconfigure_while_held': True, 'check_release': True})
+    for _ in range(80 if quick else 1500):
+        # a document whose LAST statement is refused (an undeclared domain in a kernel complex): the caller catches the error and holds
+        # nothing - whatever the statements before it built (composite domains and kernel complexes using them included) is released
+        S = sysgen.gen_system(rng)
+        jobs.append({'text': sysgen.render(S, rng).rstrip('\n') + '\nZZ9 = %s\n' % rng.choice(['undeclared_q', 'a undeclared_q', 'undeclared_q( )']),
+                     'mode': 'outcome', 'check_release': True, 'expect_refused': True})
     for job, r in zip(jobs, reader.run_jobs(jobs)):
         res.evaluations += 1
         res.nontriv(job['text'])
@@ -192,6 +198,9 @@ def run(res, proof):
         if r.get('lost_while_kept'):
             res.violation('reader-objects-lost-while-referenced', {'text': job['text'], 'kept': job.get('keep_only')}, '; '.join(r['lost_while_kept'][:4]),
                           'what a kept complex / macrostate / reaction was built from stays alive and registered')
+        if job.get('expect_refused') and r.get('outcome') != 'ok' and r.get('names_left'):
+            res.violation('refused-document-not-released', {'text': job['text']}, '%s names bound after the refused read (%s), nothing held, one gc pass'
+                          % (r.get('names_left'), r.get('outcome')), 'a caught error never prolongs a lifetime: everything the read built is released')
         if r.get('outcome') == 'ok' and (r.get('leaked') or r.get('names_left')):
             res.violation('reader-system-not-released', {'text': job['text']}, '%s objects alive, %s names bound after dropping the result and one gc pass'
                           % (r.get('leaked'), r.get('names_left')), 'everything released at the latest after one garbage-collection pass')
